@@ -422,6 +422,16 @@ pub fn run(ctx: &Ctx, prop: &str) -> Report {
             rep.count("length:>=64KiB");
             run_one(&mut rep, prop, &b, false);
         }
+        // well-formed extended Token-2022 state of that size (zero extension area), which the reference accepts
+        let mut a = packed_account(&mut rng);
+        a.resize(n, 0);
+        a[165] = 2;
+        run_one(&mut rep, prop, &a, false);
+        let mut m = packed_mint(&mut rng);
+        m.resize(n, 0);
+        m[165] = 1;
+        run_one(&mut rep, prop, &m, false);
+        rep.count("length:>=64KiB:well-formed-extended");
     }
     let n_coq = ctx.scale(900, 12000);
     for _ in 0..n_coq {
